@@ -39,3 +39,136 @@ package validation
 //@   ensures [C14,C17] accepted-keys-are-non-empty: len(result) == 0 && spec.WithCount == nil && len(spec.WithKeys) > 0 ==> (forall k int :: 0 <= k && k < len(spec.WithKeys) ==> len(spec.WithKeys[k]) > 0)
 //@   ensures [C14,C17] accepted-matrix-can-be-expanded: len(result) == 0 && spec.WithCount == nil && len(spec.WithKeys) == 0 && len(spec.WithMatrix) > 0 ==> matrixOK(spec.WithMatrix)
 //@   ensures [C17] accepted-strategy-is-known: len(result) == 0 ==> spec.CompletionStrategy == v1alpha1.AllSuccessful || spec.CompletionStrategy == v1alpha1.AnySuccessful
+
+// ---- update immutability (C17) --------------------------------------------------------------------------------------------
+// "After creation a Job's task template, parallelism, attempts, retry delay, type, option values, substitutions and
+// JobConfig label cannot be changed, its start policy cannot change once started, and its kill timestamp cannot change
+// once it has passed." Equality is apiequality.Semantic.DeepEqual (semEq).
+//@ import jobconfig "github.com/furiko-io/furiko/pkg/execution/util/jobconfig"
+
+// ASSUMED: DeepEqual on a string-kinded type is ==
+//@ axiom semEq-jobtype: forall a v1alpha1.JobType, b v1alpha1.JobType :: semEq(iface(a), iface(b)) == (a == b)
+
+//@ pure sameTemplate(a *v1alpha1.JobTemplate, b *v1alpha1.JobTemplate) bool =
+//@     semEq(iface(a.TaskTemplate), iface(b.TaskTemplate)) && semEq(iface(a.Parallelism), iface(b.Parallelism))
+//@     && semEq(iface(a.MaxAttempts), iface(b.MaxAttempts)) && semEq(iface(a.RetryDelaySeconds), iface(b.RetryDelaySeconds))
+
+//@ func Validator.ValidateJobTemplateSpecImmutable
+//@   tags C17
+//@   requires oldTemplate != nil && template != nil
+//@   ensures [C17] template-fields-immutable: (len(result) == 0) == sameTemplate(template, oldTemplate)
+
+// the kill timestamp cannot change once it has passed
+//@ pure sameInstant(a *metav1.Time, b *metav1.Time) bool = (a == nil && b == nil) || (a != nil && b != nil && a.Time.Equal(b.Time))
+//@ func Validator.ValidateKillTimestampUpdate
+//@   tags C17, C12
+//@   modifies clock
+//@   ensures [C17,C12] passed-kill-timestamp-immutable: len(result) == 0 && oldTimestamp != nil && !oldTimestamp.Time.IsZero() && ns(oldTimestamp.Time) < old(clock) ==> sameInstant(oldTimestamp, timestamp)
+//@   ensures [C17] otherwise-accepted: (oldTimestamp == nil || oldTimestamp.Time.IsZero() || sameInstant(oldTimestamp, timestamp)) ==> len(result) == 0
+
+//@ func Validator.ValidateJobSpecUpdate
+//@   tags C17
+//@   requires oldSpec != nil && spec != nil
+//@   assumes template-was-defaulted-by-the-mutating-webhook: oldSpec.Template != nil && spec.Template != nil
+//@   modifies clock
+//@   ensures [C17] spec-fields-immutable: len(result) == 0 ==> spec.ConfigName == oldSpec.ConfigName && spec.Type == oldSpec.Type && spec.OptionValues == oldSpec.OptionValues
+//@        && semEq(iface(spec.Substitutions), iface(oldSpec.Substitutions)) && sameTemplate(spec.Template, oldSpec.Template)
+//@   ensures [C17,C12] passed-kill-timestamp-immutable: len(result) == 0 && oldSpec.KillTimestamp != nil && !oldSpec.KillTimestamp.Time.IsZero() && ns(oldSpec.KillTimestamp.Time) < old(clock)
+//@        ==> sameInstant(oldSpec.KillTimestamp, spec.KillTimestamp)
+
+//@ func Validator.ValidateJobMetadataUpdate
+//@   tags C17
+//@   requires oldMetadata != nil && metadata != nil
+//@   ensures [C17] jobconfig-label-immutable: (len(result) == 0) == (metadata.Labels[jobconfig.LabelKeyJobConfigUID] == oldMetadata.Labels[jobconfig.LabelKeyJobConfigUID])
+
+//@ func Validator.ValidateJobUpdate
+//@   tags C17
+//@   requires oldRj != nil && rj != nil
+//@   assumes template-was-defaulted-by-the-mutating-webhook: oldRj.Spec.Template != nil && rj.Spec.Template != nil
+//@   modifies clock
+//@   ensures [C17] immutable-after-creation: len(result) == 0 ==> rj.Spec.ConfigName == oldRj.Spec.ConfigName && rj.Spec.Type == oldRj.Spec.Type && rj.Spec.OptionValues == oldRj.Spec.OptionValues
+//@        && semEq(iface(rj.Spec.Substitutions), iface(oldRj.Spec.Substitutions)) && sameTemplate(rj.Spec.Template, oldRj.Spec.Template)
+//@        && rj.Labels[jobconfig.LabelKeyJobConfigUID] == oldRj.Labels[jobconfig.LabelKeyJobConfigUID]
+//@   ensures [C17] start-policy-immutable-once-started: len(result) == 0 && !rj.Status.StartTime.IsZero() ==> semEq(iface(oldRj.Spec.StartPolicy), iface(rj.Spec.StartPolicy))
+//@   ensures [C17,C12] passed-kill-timestamp-immutable: len(result) == 0 && oldRj.Spec.KillTimestamp != nil && !oldRj.Spec.KillTimestamp.Time.IsZero() && ns(oldRj.Spec.KillTimestamp.Time) < old(clock)
+//@        ==> sameInstant(oldRj.Spec.KillTimestamp, rj.Spec.KillTimestamp)
+
+// ---- accepted => loadable by the cron scheduler (C17) -----------------------------------------------------------------------
+// Validation and the scheduler build their parser with the same function from the same configuration (curCronKind)
+// and use the same timezone parser; cron.cronAccepted is what Schedule.parseCronAndTimezone needs to load the schedule.
+//@ import cron "github.com/furiko-io/furiko/pkg/execution/util/cron"
+
+//@ func Validator.ValidateCronScheduleExpression
+//@   tags C17
+//@   ensures [C17] accepted-line-parses: len(result) == 0 ==> cron.lineOK(curCronKind(), cronSchedule)
+
+//@ func Validator.ValidateTimezone
+//@   tags C17
+//@   ensures [C17] accepted-timezone-parses: (len(result) == 0) == tzOK(timezone)
+
+//@ func Validator.ValidateCronSchedule
+//@   tags C17
+//@   requires spec != nil
+//@   loop 1 invariant -1 <= rangeindex && rangeindex < len(spec.Expressions) && len(allErrs) >= 0 && expressionFields >= 1 && expressionFields <= 2
+//@   loop 1 invariant len(allErrs) == 0 ==> (forall k int :: 0 <= k && k <= rangeindex ==> cron.lineOK(curCronKind(), spec.Expressions[k]))
+//@   loop 1 invariant len(allErrs) == 0 && len(spec.Expression) > 0 ==> cron.lineOK(curCronKind(), spec.Expression)
+//@   loop 1 invariant expressionFields == (len(spec.Expression) > 0 ? 2 : 1)
+//@   ensures [C17] accepted-schedule-is-loadable: len(result) == 0 ==> cron.cronAccepted(spec, curCronKind())
+
+//@ func Validator.ValidateScheduleSpec
+//@   tags C17
+//@   ensures [C17] accepted-schedule-is-loadable: len(result) == 0 && spec != nil ==> spec.Cron != nil && cron.cronAccepted(spec.Cron, curCronKind())
+
+// ---- what an accepted template guarantees to the controllers (C17: accepted => processable) ---------------------------------
+// Kubernetes' own pod template validation and the option spec validation are outside this contract (ASSUMED total).
+//@ extern func Validator.ValidateTaskTemplate
+//@   params v, spec, fldPath
+//@   fresh result
+//@ extern func Validator.ValidateOptionSpec
+//@   params v, spec, fldPath
+//@   fresh result
+
+//@ pure parallelismOK(spec *v1alpha1.ParallelismSpec) bool = numTypes(spec) == 1 && (spec.WithCount != nil ==> *spec.WithCount > 0)
+//@     && (spec.WithCount == nil && len(spec.WithKeys) == 0 && len(spec.WithMatrix) > 0 ==> matrixOK(spec.WithMatrix))
+//@     && (spec.CompletionStrategy == v1alpha1.AllSuccessful || spec.CompletionStrategy == v1alpha1.AnySuccessful)
+//@ pure templateOK(t *v1alpha1.JobTemplate) bool = (t.Parallelism != nil ==> parallelismOK(t.Parallelism))
+//@     && (t.MaxAttempts != nil ==> 0 < *t.MaxAttempts && *t.MaxAttempts <= 50)
+//@     && (t.RetryDelaySeconds != nil ==> *t.RetryDelaySeconds >= 0) && (t.TaskPendingTimeoutSeconds != nil ==> *t.TaskPendingTimeoutSeconds >= 0)
+
+//@ func Validator.ValidateMaxRetryAttempts
+//@   tags C17, C08
+//@   ensures [C17,C08] attempts-bounded: (len(result) == 0) == (0 < attempts && attempts <= 50)
+
+//@ func Validator.ValidateJobTemplateSpec
+//@   tags C17
+//@   requires template != nil
+//@   ensures [C17] accepted-template-is-processable: len(result) == 0 ==> templateOK(template)
+
+//@ func Validator.ValidateJobTemplate
+//@   tags C17
+//@   requires spec != nil
+//@   ensures [C17] len(result) == 0 ==> templateOK(addr(spec.Spec))
+
+//@ func Validator.ValidateConcurrencyPolicy
+//@   tags C17
+//@   loop 1 invariant true
+//@   ensures [C17] known-policy: len(result) == 0 ==> concurrencyPolicy != "" && concurrencyPolicy.IsValid()
+
+//@ func Validator.ValidateConcurrencySpec
+//@   tags C17, C05
+//@   ensures [C17,C05] accepted-concurrency: len(result) == 0 ==> spec.Policy != "" && spec.Policy.IsValid()
+//@        && (spec.MaxConcurrency != nil ==> *spec.MaxConcurrency > 0 && spec.Policy != v1alpha1.ConcurrencyPolicyAllow)
+
+// an accepted JobConfig can be loaded by the cron scheduler (Schedule.newItem / parseCronAndTimezone) and its template
+// satisfies what the controllers rely on
+//@ func Validator.ValidateJobConfigSpec
+//@   tags C17
+//@   requires spec != nil
+//@   ensures [C17] accepted-jobconfig-is-processable: len(result) == 0 ==> templateOK(addr(spec.Template.Spec))
+//@        && (spec.Schedule != nil ==> spec.Schedule.Cron != nil && cron.cronAccepted(spec.Schedule.Cron, curCronKind()))
+
+//@ func Validator.ValidateJobConfig
+//@   tags C17
+//@   requires rjc != nil
+//@   ensures [C17] accepted-jobconfig-is-processable: len(result) == 0 ==> templateOK(addr(rjc.Spec.Template.Spec))
+//@        && (rjc.Spec.Schedule != nil ==> rjc.Spec.Schedule.Cron != nil && cron.cronAccepted(rjc.Spec.Schedule.Cron, curCronKind()))
